@@ -16,6 +16,10 @@ CLAIMS = {
     text="TLC enumerates every (collection kind, length, offset, limit, reversed, cols) loop program and every break/continue placement in two nested loops, checks on the LiquidInterp machine that the implementation-shaped window equals the declarative selection, that the loop object is truthful in every iteration and that a break ends exactly the innermost for loop; the harness renders every program and compares the printed items and loop fields.",
     note="bounded: lengths 0..6, offset/limit 0..8, cols 1..4, nested lengths 1..3 (quick); 0..9 / 0..11 / 1..5 / 1..4 (thorough); non-negative literal attributes.",
     tech=TECH_A, ref="DESIGN.md 7 C05"),
+ "C06": dict(
+    text="TLC runs every conditional program of the enumerated families on the LiquidInterp machine and checks in the model that the printed branch is the first arm whose condition holds under a declarative (order-free) reading of the condition tree, that unless negates, that or/and group as or-of-ands, that case picks the first arm holding an equal value and that equality/ordering are coherent on the pool; the harness renders every program on the real parser and compares.",
+    note="bounded: 32-value pool, chains <= 4 arms, case <= 3 arms, and/or chains <= 4 atoms; multi-key object ordering excluded (unspecified iteration order).",
+    tech=TECH_A, ref="DESIGN.md 7 C06"),
  "C18": dict(
     text="TLC explores every operation sequence of the explicit TLA+ specification LiquidRuntime up to the stated length from all 9 base maps, checks the declarative scope meaning against the delegation-chain form in every state, and every explored sequence is replayed on the real StackFrame/SandboxedStackFrame/GlobalFrame types with all lookups, roots, counters and register ownership compared after every operation.",
     note="bounded: length 3 (quick) / 4 exhaustive replay, 5 state-space, 6 reduced alphabet + random walks (thorough); values are scalars and one-key objects; trusted: TLC, the harness's encoding of observations.",
